@@ -28,31 +28,7 @@ MMAP_FLUSH = ['memmap2::MmapMut::flush', 'memmap2::MmapMut::flush_range']
 
 def run(ctx):
     F = ctx.F
-    # ---------------------------------------------------------------- 1. log synced before hand-over
-    pushers = lib.calls_on_field(F, [PUSH_BACK, 're:VecDeque.*::(push_front|extend|append|insert)$'], '.Log.read_queue')
-    pb = sorted(set(b.path for b, _ in pushers))
-    ctx.ob('1a read_queue-producers', 'K4-confinement', ','.join(pb) or '-',
-           'only Log::flush_one hands a log file over to the applier (pushes onto Log.read_queue)',
-           pb == ['log::Log::flush_one'], 'bodies pushing onto Log.read_queue: %s' % pb)
-    fo = ctx.body('log::Log::flush_one')
-    if fo:
-        sync_true = lib.prune_bool_field(fo, '.Log.sync', True)
-        ctx.ob('1b sync-assumption-anchored', 'anchor', fo.path, 'a branch on Log.sync exists to prune (assumption sync_wal=true is meaningful)',
-               bool(sync_true), 'no switch on a copy of Log.sync found in flush_one')
-        push_sites = [bi for b, bi in pushers if b is fo]
-        syncs = lib.must_sites(fo, [SYNC_DATA, SYNC_ALL])
-        lib.precedes(ctx, '1c sync-before-handover', fo, syncs, push_sites,
-                     'with sync_wal on, every path to the hand-over push passes File::sync_data', removed_edges=sync_true)
-        for ps in push_sites:
-            lib.result_guards(ctx, '1d handover-only-if-sync-ok', fo, syncs, ps,
-                              'the hand-over runs only on the Ok outcome of sync_data (error -> no hand-over)') if syncs else None
-        inner = lib.must_sites(fo, ['std::io::BufWriter::<W>::into_inner', 're:BufWriter.*::flush$', 're:Write>::flush$'])
-        lib.precedes(ctx, '1e bufwriter-flushed-before-sync', fo, inner, syncs,
-                     'buffered log bytes are written (BufWriter::into_inner/flush) before sync_data', removed_edges=sync_true)
-    poppers = lib.calls_on_field(F, [POP_FRONT, 're:VecDeque.*::(pop_back|drain|remove|swap_remove_.*|split_off|clear|truncate)$', 'std::mem::take', 'std::mem::replace'], '.Log.read_queue')
-    pp = sorted(set(b.path for b, _ in poppers))
-    ctx.ob('1f read_queue-consumers', 'K4-confinement', ','.join(pp) or '-',
-           'only Log::read_next takes files from Log.read_queue', pp == ['log::Log::read_next'], 'consumers: %s' % pp)
+    shared.sync_before_handover(ctx, '1')
     shared.wal_confinement(ctx, '1w')
 
     # ---------------------------------------------------------------- 2. tables flushed before truncation
@@ -134,6 +110,9 @@ def run(ctx):
             t = lc.term(s)
             z = t['a'][1].get('i') if len(t['a']) > 1 else None
             ctx.ob('3c truncate-to-zero', 'K8-const', lc.path, 'the log is truncated to length 0 (a constant)', z == 0, 'set_len operand: %s' % core.op_str(t['a'][1]))
+    # logs are truncated oldest first (a power loss between two truncations must leave a suffix-closed set of logs:
+    # an older log surviving while a newer one is gone would be replayed over newer flushed state)
+    shared.queue_discipline(ctx, '3q')
     # ---------------------------------------------------------------- 4. remap flushes the old mapping
     g = ctx.body('file::TableFile::grow')
     if g:
